@@ -116,7 +116,11 @@ func (w *govWorld) badPayload() (*shmsg.Message, string) {
 	case 3:
 		return &shmsg.Message{Payload: &shmsg.Message_CheckIn{CheckIn: &shmsg.CheckIn{ValidatorPublicKey: short, EncryptionPublicKey: short}}}, "check-in with short keys"
 	case 4:
-		return &shmsg.Message{Payload: &shmsg.Message_CheckIn{CheckIn: &shmsg.CheckIn{ValidatorPublicKey: simtm.DetEd25519("x"), EncryptionPublicKey: c.Bytes(33, "enc")}}}, "check-in with garbage encryption key"
+		// 33 bytes that are certainly not a compressed secp256k1 point: the prefix byte is
+		// neither 2 nor 3 (random bytes are a valid key once in ~500 draws)
+		enc := c.Bytes(33, "enc")
+		enc[0] |= 0x04
+		return &shmsg.Message{Payload: &shmsg.Message_CheckIn{CheckIn: &shmsg.CheckIn{ValidatorPublicKey: simtm.DetEd25519("x"), EncryptionPublicKey: enc}}}, "check-in with garbage encryption key"
 	case 5:
 		return &shmsg.Message{Payload: &shmsg.Message_PolyEval{PolyEval: &shmsg.PolyEval{Eon: eon, Receivers: [][]byte{a, b}, EncryptedEvals: [][]byte{{1}}}}}, "poly eval with mismatched lengths"
 	case 6:
